@@ -278,13 +278,14 @@ def fact_case(case, cfg, seed):
             return 'viol', f"{case['fac']}_with_truncation({kw}): sector {t} keeps {len(vs)} values, limit {Dbm.get(t)}", True
     if len(kept) > kw.get('D_total', INF):
         return 'viol', f"{case['fac']}_with_truncation({kw}): keeps {len(kept)} > D_total", True
-    disc2 = sum(v * v for v in allv) - sum(v * v for v in kept) if case['fac'] == 'svd' else None
     err = (a_for_err - rec).norm() if kept else a_for_err.norm()
-    if case['fac'] == 'svd':
-        expect = np.sqrt(max(disc2, 0.0))
-    else:
-        # U S U^dag with eigenvalues of a PSD operator: error = norm of discarded eigenvalues
-        expect = np.sqrt(max(sum(v * v for v in allv) - sum(v * v for v in kept), 0.0))
+    # norm of the discarded values, from the multiset difference (a difference of squared norms would turn round-off
+    # 1e-14 into 1e-7 when nothing is discarded); for eigh: U S U^dag of a PSD operator
+    rest = list(allv)
+    for v in kept:
+        if rest:
+            rest.pop(min(range(len(rest)), key=lambda i: abs(rest[i] - v)))
+    expect = np.sqrt(sum(v * v for v in rest))
     if abs(err - expect) > 1e-10 * scale ** (2 if case['fac'] == 'eigh' else 1) + 1e-9 * expect:
         return 'viol', (f"{case['fac']}_with_truncation({kw}): ||a - truncated|| = {err} but the discarded values have norm "
                         f"{expect}"), True
